@@ -12,7 +12,7 @@ TYPES = {
 # std containers, resume and the returned suspend point are never translated: assumed-contract models in lib/model_pubsub.c
 BOUNDARY = [r'^std::vector<cocls::publisher<int>::queue::subreg_t', r'^std::deque<int, std::allocator<int> >::', r'^std::vector<cocls::awaiter\*', r'^cocls::awaiter::resume\(',
             r'^cocls::suspend_point<void>::~suspend_point', r'__normal_iterator<cocls::', r'std::copy<int const\*, std::front_insert_iterator', r'^void std::swap<cocls::awaiter\*']
-LIBS = ['rt_core.c', 'rt_atomic_seq.c', 'model_mutex.c', 'model_pubsub.c']
+LIBS = ['rt_core.c', 'rt_atomic_seq.c', 'model_mutex.c', 'model_pubsub.c', 'model_pubsub_dpos.c']   # _dpos: operator[] of the deque model notes the stream position of the element handed out
 HOOK_LOCK = 'CV_ON_LOCK(m) { extern void c16_on_lock(void *); c16_on_lock((void *)(m)); }'
 HOOK_UNLOCK = 'CV_ON_UNLOCK(m) { extern void c16_on_unlock(void *); c16_on_unlock((void *)(m)); }'
 HOOK_REG = 'PS_ON_REG_OTHER(i) { extern void c16_reg_other(cv_i64); c16_reg_other(i); }'
@@ -37,9 +37,14 @@ UNITS = [
     unit('advance_lk', 'q_advance_lk', QS + 'advance_lk(unsigned long, cocls::subscribtion_type)'),
     unit('advance_suspend_lk', 'q_advance_suspend_lk', QS + 'advance_suspend_lk(unsigned long, cocls::awaiter*)'),
     unit('get_value_lk', 'q_get_value_lk', QS + 'get_value_lk(unsigned long, cocls::subscribtion_type)'),
-    unit('push_lk', 'q_push_lk', QS + 'push_lk(std::unique_lock<std::mutex>&, unsigned long)', loop_contracts=True, defines=['C16_UNLOCK_PUSH 1'],
+    unit('push_lk', 'q_push_lk', QS + 'push_lk(std::unique_lock<std::mutex>&, unsigned long)', loop_contracts=True, defines=['C16_UNLOCK_PUSH 1', 'PS_LOCKCHECK_WB_ITER 1'],
          extra_boundary=[MIN_IL_RX],
          extra_names={'std_min_il': MIN_IL_RX}),
+    # bounded sibling: the same contract with the two loops unwound (<= 3 registrations) - decides a rewritten loop, for which the loop
+    # invariants (which name range-for temporaries) cannot be used
+    dict(unit('push_lk', 'q_push_lk', QS + 'push_lk(std::unique_lock<std::mutex>&, unsigned long)', loop_contracts=False, defines=['C16_UNLOCK_PUSH 1', 'CV_BOUNDED_FALLBACK 1', 'PS_LOCKCHECK_WB_ITER 1'],
+         extra_boundary=[MIN_IL_RX], extra_names={'std_min_il': MIN_IL_RX}, kind='bounded', unwind=6, object_bits=9, timeout=600,
+         bounded='<= 3 registered subscribers; loops unwound instead of loop contracts'), name='push_lk_bounded'),
     unit('kick_lk', 'q_kick_lk', QS + 'kick_lk(%s, std::unique_lock<std::mutex>&)' % SUBP, extra_boundary=[r'std::find_if<'], extra_roots=[KICK_PRED_RX],
          extra_names={'kick_pred': KICK_PRED_RX, 'kick_find_if': r'std::find_if<.*kick_lk'}),
 ]
@@ -88,6 +93,8 @@ UNITS += [
     proto('proto_awaited__skip', 'c16_next_awaited', PROTO_NAMES, '(t) == 1 || (t) == 2', AWAITED_UNDER),
     dict(proto('lemma_history', 'c16_next_awaited', PROTO_NAMES, '(t) == 0', ['L: history lemma over the contract of one next() (all_values)']), harness='h_lemma_history', enforce=None,
          replace=['c16_next_awaited'], loop_contracts=True, kind='lemma', defines=[HOOK_REG, HOOK_LOCK, HOOK_UNLOCK, PARKED, 'C16_MODE_PRE(t) ((t) == 0)', 'C16_LEMMA_HISTORY 1']),
+    dict(proto('lemma_skip_forward', 'c16_next_awaited', PROTO_NAMES, '(t) == 1 || (t) == 2', ['L-skip: history lemma over the contract of one next() (skipping modes): delivered positions strictly increase']), harness='h_lemma_skip_forward', enforce=None,
+         replace=['c16_next_awaited'], loop_contracts=True, kind='lemma', defines=[HOOK_REG, HOOK_LOCK, HOOK_UNLOCK, PARKED, 'C16_MODE_PRE(t) ((t) == 1 || (t) == 2)', 'C16_LEMMA_SKIP 1']),
     proto('proto_polled__all_values', 'c16_next_polled', {'sub_next_ready': rx(SUBS + 'next_ready()')}, '(t) == 0', [SUBS + 'next_ready()']),
     proto('proto_blocking__all_values', 'c16_next_blocking', {'awt_bool_real': rx(SUBS + 'next_awt::operator bool()')}, '(t) == 0', [SUBS + 'next_awt::operator bool()', 'blocking protocol with rely'],
           xtypes=True, xboundary=[r'^std::atomic<bool>::wait\(', r'^std::atomic<bool>::notify_all'], names_opt={'st_atomic_wait': r'^std::atomic<bool>::wait\(bool, std::memory_order\) const$'}),
@@ -143,10 +150,18 @@ RP_FLAGS = ['-fno-access-control', '-D_GLIBCXX_ASSERTIONS', '-g']
 RP_CLOSE = dict(src='c16_close_race.cpp', mode='all_values', flags=RP_FLAGS)
 RP_CLOSE_SKIP = dict(src='c16_close_race.cpp', mode='skip', flags=RP_FLAGS)
 RP_BLOCK = dict(src='c16_blocking_next.cpp', mode='steps', flags=RP_FLAGS)
+# audit D5 (skipping modes deliver a position twice) / D6 (copy of a parked subscriber): c16_skip_dup.cpp also runs the close-race (mode awaited_skip) and the
+# blocking (mode blocking_skip) scenarios of the two older replays, so the skip protocol units keep their earlier native confirmation
+def RP_DUP(mode): return dict(src='c16_skip_dup.cpp', mode=mode, flags=RP_FLAGS)
+RP_COPY = dict(src='c16_copy_parked.cpp', mode='copy', flags=RP_FLAGS)
 for _u in UNITS:
     if _u['name'] in ('advance_suspend_lk', 'proto_awaited__all_values'): _u['replay'] = RP_CLOSE
-    elif _u['name'] == 'proto_awaited__skip': _u['replay'] = RP_CLOSE_SKIP
-    elif _u['name'] in ('awt_bool', 'awt_not', 'proto_blocking__all_values', 'proto_blocking__skip'): _u['replay'] = RP_BLOCK
+    elif _u['name'] == 'proto_awaited__skip': _u['replay'] = RP_DUP('awaited_skip')
+    elif _u['name'] == 'proto_blocking__skip': _u['replay'] = RP_DUP('blocking_skip')
+    elif _u['name'] == 'proto_polled__skip': _u['replay'] = RP_DUP('polled_skip')
+    elif _u['name'] == 'get_value_lk': _u['replay'] = RP_DUP('get_value')
+    elif _u['name'] in ('awt_bool', 'awt_not', 'proto_blocking__all_values'): _u['replay'] = RP_BLOCK
+    elif _u['name'] == 'subscribe_lk_copy': _u['replay'] = RP_COPY
 META = dict(
     level='proof',
     level_text=('Every function of publisher<int>::queue that runs under the queue mutex (subscribe_lk x3, leave_lk, advance_lk, advance_suspend_lk, get_value_lk, push_lk incl. both '
@@ -159,22 +174,33 @@ META = dict(
         'precondition of push_lk and define the ghost stream). Thread-modular part: the three forms of next() - co_await (ready -> subscribe -> check_next), blocking (operator bool: up to four '
         'critical sections) and polled (next_ready) - are each ONE unit running the real translated members down to the container models with a rely step at EVERY lock acquisition (stream '
         'grows, _closed / kicked become true, parked awaiter woken, window trimmed within the invariant); postcondition = position lemma for one next(): success = position + 1 and value '
-        'gh_stream[new position]; end-of-stream only if kicked, closed and drained, or fallen more than max behind; skipping modes strictly forward, skip_to_recent = newest. History lemma L '
-        '(unbounded number of next() calls, loop invariant over the contract of one next()): the k-th value received is the one published at subscription point + k + 1.'),
-    level_note=('ON THE UNCHANGED TREE THE PROPERTY DOES NOT HOLD: two genuine defects, each with failing obligations, a native replay and a candidate repair (fix_close.diff, fix_blocking.diff): '
+        'gh_stream[new position]; end-of-stream only if kicked, closed and drained, or fallen more than max behind; skipping modes strictly forward IN THE POSITION OF THE VALUE DELIVERED (ghost gh_delivered_pos = which '
+        'element of the retained window check_next() was handed, noted by the deque model - not the registration counter), the subscriber standing at that position afterwards; skip_to_recent = newest. History lemma L '
+        '(unbounded number of next() calls, loop invariant over the contract of one next()): the k-th value received is the one published at subscription point + k + 1; L-skip: of any two values a skipping '
+        'subscriber receives the later one sits at a strictly larger stream position. The hypothesis of both lemmas (SUBSCRIBER_ACTIVE, retention) is a postcondition of every subscribe_lk form; a copy starts at the '
+        'last position DELIVERED to the original (a parked original is registered one past it - checked where a subscriber gets parked).'),
+    level_note=('AUDIT D (defects 3, 4 below; fix_skip_dup.diff, fix_copy_parked.diff): (3) get_value_lk hands a skipping subscriber the newest / oldest retained value without recording its position in the registration: '
+        'the next next() delivers the same stream position again (clauses C16-delivered-position / C16-skip-forward; replay c16_skip_dup.cpp); (4) subscribe_lk(h, sub) copies the registration of a PARKED original, which stands '
+        'one past its last delivered position: bogus end-of-stream / skipped item for the copy (clauses C16-copy-position / C16-copy-active; replay c16_copy_parked.cpp). Both had verified before because the clauses had been '
+        'written over the registration counter, after the code. EARLIER: '
+        'ON THE UNCHANGED TREE THE PROPERTY DOES NOT HOLD: two genuine defects, each with failing obligations, a native replay and a candidate repair (fix_close.diff, fix_blocking.diff): '
         '(1) advance_suspend_lk returns false on _closed without advancing -> after a close() between await_ready and await_suspend the consumed item is delivered again (all_values: duplicate; '
         'skipping modes: position not increased, and _q[0] / _q[size()-1] on an EMPTY deque when nothing was published); (2) the blocking form never calls check_next() once it really has to block '
         '(co_awaiter::wait() binds await_resume statically to the base class): published value lost, bogus end-of-stream, optional dereferenced while disengaged. '
         'Not proof-level: the free-list shape (list-shaped) is covered by a BOUNDED stand-in only; rely/guarantee soundness and the closure "rely = union of the other threads\' guarantees" are argued, '
         'not machine-checked (the guarantees are the frame clauses `h != gh_RH ==> T_SAME` of the _lk contracts plus the unlock obligations of push_lk / kick_lk). '
         'Reported, not an obligation in the default run: queue::position() reads _regs without the mutex (set C16_LOCKCHECK_POSITION=1 to turn the lock-discipline obligation on for unit q_position; '
-        'TSan confirms the race against a reallocating subscribe). T = int only. Behaviour after the first end-of-stream is outside the property (and outside the preconditions).'),
+        'TSan confirms the race against a reallocating subscribe). T = int only. Behaviour after the first end-of-stream is outside the property (and outside the preconditions) - NOTE: that exclusion hides real behaviour in the '
+        'skipping modes, where end-of-stream is NOT sticky: after a closed-and-drained end-of-stream a further next() runs the registration past the stream (advance_lk: max(l._pos+1, ...)), get_value_lk no longer sees l._pos == _pos and '
+        'hands out _q[0] (skip_to_recent) / the clamped _q[size()-1] (skip_if_behind) again - the last value is re-delivered after end-of-stream (confirmed natively: EOF, 2, 2, 2 ...; with fix_skip_dup.diff: EOF, 2, EOF, 2 ...); '
+        'all_values and a kicked subscriber stay at end-of-stream. A caller that loops `while (next())` never sees it.'),
     technique=('CBMC 6.11 code contracts (requires/ensures/assigns + loop contracts) enforced per function via goto-instrument --dfcc on the C translation (ir2c) of clang IR of the real publisher.h; '
         'assumed-contract models of std::deque<int>, std::vector<subreg_t>, std::vector<awaiter*>, std::find_if, std::min(initializer_list), std::copy(front_inserter), awaiter::resume; '
         'forwarder units with logging abstract callees; thread-modular rely step at lock acquisitions (CV_ON_LOCK hook), invariant obligations at lock releases (CV_ON_UNLOCK); history lemma with '
         'contract replacement + loop invariant; bounded unwinding stand-in for the free list'),
     trusted_base=[
         'lib/model_pubsub.c: std::deque<int> as a window over absolute ids (push_front, operator[], size, resize that never grows, std::copy to a front_inserter); content tracked at one arbitrary id',
+        'lib/model_pubsub_dpos.c: operator[] of the deque model notes the absolute id (= stream position) of the element it hands out (gh_dq_ref_id); the value a subscriber receives is the one read through that reference',
         'lib/model_pubsub.c: std::vector<subreg_t> with one arbitrary tracked slot; a reference to any OTHER slot yields arbitrary content constrained by instances of the unit invariant for "every other slot" '
         '(specs/C16/ps_spec.h c16_reg_other: slot invariant, free-list head is free, no free slot links to a used slot, no self-loop, live subscribers are distinct objects, an awaiter is registered at most once, '
         'a handle passed by a caller belongs to a registered subscriber); position-encoded iterators; the code never holds references to two different untracked slots at once (true of publisher.h, not checked)',
@@ -186,7 +212,8 @@ META = dict(
         'std::shared_ptr<queue> copy/destroy = pointer copy + counter (control block / lifetime of the queue object not modelled); std::atomic<bool>::wait / notify_all of sync_awaiter = abstract (blocks until woken)',
     ],
     assumptions=[
-        'protocol preconditions: next() is not called again after end-of-stream was reported; one next() at a time per subscriber; a subscriber is not destroyed while its awaiter is parked; an awaiter is registered at most once; `sub` pointers of live subscribers are distinct',
+        'a copy is taken from an original that is idle (between two next(), incl. between the lock-atomic steps of a running next(): that next() is then linearised before the copy) or parked in next(); an original that was kicked WHILE parked keeps standing one past its last delivered position with _awt cleared - not distinguishable in the state, its copy starts one position late (outside the contract)',
+        'protocol preconditions: next() is not called again after end-of-stream was reported (see level_note: in the skipping modes end-of-stream is not sticky); one next() at a time per subscriber; a subscriber is not destroyed while its awaiter is parked; an awaiter is registered at most once; `sub` pointers of live subscribers are distinct',
         'explicit start position <= current stream position (DESIGN); the clause "end-of-stream only when fallen more than max behind" is stated for subscribers the window served at subscription (recent / by copy / explicit position still retained) - for an explicit position older than the window the weaker clause "needed position no longer retained" is proved',
         'wake-up assumption: a suspended coroutine / blocked thread continues only after its awaiter was resumed, and an awaiter parked in the queue is resumed only by push_lk (publish, close) or kick_lk - both proved to resume exactly the parked awaiters',
         'arithmetic: _pos < 2^40, registrations < 2^40, batch < 2^20 elements per call (stated preconditions); ghost numbering is mathematical',
